@@ -124,7 +124,7 @@ fn alphabet(order: u128) -> Vec<u128> {
 /// constructors from integers above the order must still give a canonical element
 fn ctor<T>(prefix: &str, name: &str, order: u128, prime: bool, r: &mut Report)
 where
-    T: Serializable + PartialEq + std::fmt::Debug + U128Conversions,
+    T: Serializable + PartialEq + std::fmt::Debug + U128Conversions + TryFrom<u128>,
 {
     let mut t = Tally { cases: 0, first: None, bad: 0 };
     let mut ins: Vec<u128> = vec![order, order + 1, 2 * order - 1, 2 * order, 2 * order + 1, u128::MAX, u128::MAX - 1, u128::MAX / 2, u128::MAX / 2 + 1];
@@ -154,6 +154,28 @@ where
             t.first.get_or_insert(("truncate_from".to_string(), format!("truncate_from({v:#x}) holds {got:#x}, the canonical element is {want:#x} (order {order:#x})")));
         }
         canon(&mut t, &format!("truncate_from({v:#x})"), &x);
+        // the checked constructor may refuse integers that do not fit, but whatever it returns is the
+        // canonical element congruent to its argument, and integers below the order are accepted as is
+        t.cases += 1;
+        match T::try_from(v) {
+            Ok(y) if y.as_u128() == want => canon(&mut t, &format!("try_from({v:#x})"), &y),
+            Ok(y) => {
+                t.bad += 1;
+                t.first.get_or_insert(("try_from".to_string(), format!("try_from({v:#x}) returned Ok({y:?}), the canonical element is {want:#x} (order {order:#x})")));
+            }
+            Err(_) if v < order => {
+                t.bad += 1;
+                t.first.get_or_insert(("try_from".to_string(), format!("try_from({v:#x}) is rejected although it is below the order {order:#x}")));
+            }
+            Err(_) => {}
+        }
+    }
+    for v in [0u128, 1, order / 2, order - 2, order - 1] {
+        t.cases += 1;
+        if T::try_from(v).ok().map(|y| y.as_u128()) != Some(v) {
+            t.bad += 1;
+            t.first.get_or_insert(("try_from".to_string(), format!("try_from({v:#x}) does not return the element {v:#x}")));
+        }
     }
     finish_as(prefix, name, t, r);
 }
